@@ -138,6 +138,7 @@ type World struct {
 	victims             map[string]int    // op id -> how often one of its statements was the victim of an organic deadlock
 	victimTraceIdx      map[string]int    // op id -> length of the step trace when it was last a victim
 	refusals            map[string]string // task -> the feature refusal the storage layer raised for its read
+	unscoped            []UnscopedRead    // read statements with fewer ledger predicates than bucket-table references (auditRead)
 	misreads            []FeatureMisread  // read statements that need a feature the ledger has disabled (auditRead)
 	lenientReads        bool              // see unmodelled
 	sites               [][3]string       // (task, store call, fault fired or "") for every step at a yield that admits faults
